@@ -3734,9 +3734,12 @@ impl M2Model {
                         anim_data_offset += anim.values.len() as u32;
                     }
 
-                    // Map ranges offset (pre-WotLK only, skip if already mapped)
-                    if let (Some(ranges), Some(orig_offset)) =
-                        (&anim.ranges, anim.original_ranges_offset)
+                    // Map ranges offset (pre-WotLK only, skip if already mapped). A model
+                    // converted from a pre-WotLK version still holds the ranges bytes, but the
+                    // WotLK+ bone layout has no field that could reference them.
+                    if header.version < 264
+                        && let (Some(ranges), Some(orig_offset)) =
+                            (&anim.ranges, anim.original_ranges_offset)
                         && let Entry::Vacant(e) = offset_map.entry(orig_offset)
                     {
                         e.insert(anim_data_offset);
@@ -3773,9 +3776,10 @@ impl M2Model {
                         data_section.extend_from_slice(&anim.values);
                     }
 
-                    // Write ranges only if not already written
-                    if let (Some(ranges), Some(orig_offset)) =
-                        (&anim.ranges, anim.original_ranges_offset)
+                    // Write ranges only if not already written (pre-WotLK layouts only)
+                    if header.version < 264
+                        && let (Some(ranges), Some(orig_offset)) =
+                            (&anim.ranges, anim.original_ranges_offset)
                         && written_offsets.insert(orig_offset)
                     {
                         data_section.extend_from_slice(ranges);
